@@ -56,6 +56,7 @@ type Profile struct {
 	Examples      bool // field_examples
 
 	HostileNames bool // identifier-hostile names
+	HostileText  bool // free-text values (descriptions, examples) with quotes, backslashes, line breaks, template syntax
 	LongNames    bool
 
 	TSServer       bool // the schema is run through the generated TypeScript server
@@ -997,6 +998,11 @@ func (g *gen) headers(over []*Header) []*Header {
 		}
 		if g.oneIn(3, "hdesc") {
 			h.Description = "the " + name + " header"
+			if g.p.HostileText && g.oneIn(2, "hdeschostile") && !g.avoid("header_text_unescaped") {
+				// free text: quotes, backslashes, line breaks, template syntax
+				h.Description = pick(g, []string{"the \"tenant\" id", "path C:\\temp", "line one\nline two", "cost ${amount} `now`", "ends with backslash \\", "*/ not a comment /*"}, "hdescval")
+				g.tagf("header_text:hostile")
+			}
 		}
 		if g.oneIn(4, "hexample") {
 			h.Example = "example-1"
@@ -1278,6 +1284,10 @@ func (g *gen) addExamples(m *Message) {
 		switch {
 		case f.Kind == KString:
 			ex = []string{"alpha", "beta gamma", "δ"}
+			if g.p.HostileText && g.oneIn(3, "exhostile") && !g.avoid("example_text_unescaped") {
+				ex = append(ex, pick(g, []string{"say \"hi\"", "C:\\temp", "a\nb", "${x} `y`", "back\\"}, "exhostileval"))
+				g.tagf("examples:hostile_text")
+			}
 			if !g.p.MockShape && g.oneIn(3, "yamlhostile") && !g.avoid("examples_untagged_yaml_scalars") {
 				ex = append(ex, pick(g, []string{"123", "no", "true", "null", "1e3", "~", "2001-12-14", "a: b", "#c", "on"}, "hostileex"))
 				g.tagf("examples:yaml_hostile")
